@@ -294,6 +294,7 @@ def loose_text(rnd):
     for i, t in enumerate(toks):
         out += t
         if t == b"\n":
+            out += rnd.choice([b"", b"", b"", b"  ", b"\t", b"\r", b" \r"])      # indentation, or a stray carriage return, at the line start
             continue
         if i + 1 < len(toks) and toks[i + 1] != b"\n":
             out += rnd.choice(L_SEPS)
